@@ -8,6 +8,12 @@ COMMON_TRUSTED = [
 ]
 
 CONF = {
+    "C18": {
+        "n": {"quick": 500, "thorough": 8000},
+        "shard": 250,
+        "trusted_base": ["yaml.v3 for the AddDocumentFromReader stream"],
+        "assumptions": ["documents have path-safe keys; generated values are yaml-round-trippable (no floats) for the FromReader variant"],
+    },
     "C06": {
         "n": {"quick": 400, "thorough": 6000},
         "shard": 200,
